@@ -333,7 +333,7 @@ func c02Spaces(c *fw.Ctx) {
 					list = keys
 				}
 				for _, code := range list {
-					for a := -2; a < 256; a++ {
+					for a := -2 - 36; a < 256; a++ { // -2: structured payloads, -1: lengths 3..20, below: longer payloads, eight lengths per case
 						isOpt, code, a := isOpt, code, a
 						emit(func(r *fw.R) {
 							try := func(pl []byte) {
@@ -406,17 +406,28 @@ func c02Spaces(c *fw.Ctx) {
 								}
 								return
 							}
-							if a < 0 {
+							if a == -1 {
 								try(nil)
+								for n := 3; n <= 20; n++ {
+									for _, fill := range []byte{0, 1, 0x7f, 0x80, 0xff} {
+										try(bytes.Repeat([]byte{fill}, n))
+									}
+								}
+								return
+							}
+							if a < -2 {
 								// every payload length up to 300 octets (protocol maxima of the options lie below: cookies 40,
-								// keepalive 2, padding / NSID anything) and lengths around 512, 1024, 4096 and the RDLENGTH limit
+								// keepalive 2, padding / NSID anything) and lengths around 512, 1024 and 4096, eight lengths per case
 								// (printing a 64 KiB NSID takes minutes — OPT.String concatenates per octet — and the statement puts
 								// no bound on printing, so the largest payload tried is 4096 octets)
-								lens := []int{511, 512, 513, 1023, 1024, 1025, 4096}
-								for n := 3; n <= 300; n++ {
+								lens := []int{}
+								for n := 21; n <= 300; n++ {
 									lens = append(lens, n)
 								}
-								for _, n := range lens {
+								lens = append(lens, 511, 512, 513, 1023, 1024, 1025, 4096)
+								k := -3 - a
+								for i := 8 * k; i < 8*k+8 && i < len(lens); i++ {
+									n := lens[i]
 									for _, fill := range []byte{0, 1, 0x7f, 0x80, 0xff} {
 										if n > 300 && fill != 0 && fill != 0xff {
 											continue
